@@ -219,6 +219,52 @@ theorem not_C02_Strategy_Full : ¬ C02_Strategy_Full := by
   rw [f9_leaf_witness.1, f9_leaf_witness.2] at this
   cases this
 
+/-! ## named ties (each is a consequence of a whole-skeleton tie of `Props/C02Ties.lean`; they name the
+facts the models depend on most directly) -/
+
+set_option maxRecDepth 8000 in
+/-- the flush test `len(batch) > IteratorMinBatchThreshold` and the **fresh** batch after a flush
+(`make([]string, 0)`, never `batch[:0]`: the sent slice is still read by the consumer) — in
+`addNextItemInSliceStreamsToBatch` and in the drain loop of `fastPathDifference`; `item != ""` guards the append -/
+theorem tie_batch_flush :
+    ["0:if item != \"\"", "0:if len(batch) > IteratorMinBatchThreshold", "1:batch = make([]string, 0)"].all
+      (fun l => Gen.Strategies.addNextItemSkel.contains l) = true ∧
+    ["2:if len(batch) > IteratorMinBatchThreshold", "3:batch = make([]string, 0)", "2:batch = append(batch, items...)"].all
+      (fun l => Gen.Strategies.fastPathDifferenceSkel.contains l) = true := by
+  rw [Ties.tie_addNextItemSkel, Ties.tie_fastPathDifferenceSkel]
+  decide
+
+set_option maxRecDepth 8000 in
+/-- the comparison operators and index guards of the three loops (`selMin`, `selMax`, `diffLoop`, `skipTo`) -/
+theorem tie_loop_comparisons :
+    ["2:if minObject == v", "2:else if minObject > v"].all (fun l => Gen.Strategies.fastPathUnionSkel.contains l) = true ∧
+    ["1:if len(iterStreams) != childrenTotal", "2:if maxObject == v", "2:else if maxObject < v",
+     "1:if len(itersWithEqualObject) == childrenTotal"].all (fun l => Gen.Strategies.fastPathIntersectionSkel.contains l) = true ∧
+    ["1:if len(iterStreams) != 2", "1:if base == diff", "1:if diff > base",
+     "0:if len(iterStreams) == 1 && iterStreams[BaseIndex].Idx() == BaseIndex"].all
+      (fun l => Gen.Strategies.fastPathDifferenceSkel.contains l) = true ∧
+    Gen.Strategies.streamSkipToTargetObjectSkel.contains "1:if t >= target" = true := by
+  rw [Ties.tie_fastPathUnionSkel, Ties.tie_fastPathIntersectionSkel, Ties.tie_fastPathDifferenceSkel,
+    Ties.tie_streamSkipToTargetObjectSkel]
+  decide
+
+set_option maxRecDepth 8000 in
+/-- the visited key and the depth test of the breadth-first search (`RecursiveV1.bfs`) -/
+theorem tie_bfs_visited_and_depth :
+    ["0:req.GetRequestMetadata().Depth++", "0:if req.GetRequestMetadata().Depth == c.maxResolutionDepth",
+     "1:_, visited := visitedUserset.LoadOrStore(userset, struct{}{})", "1:if visited"].all
+      (fun l => Gen.Strategies.breadthFirstRecursiveMatchSkel.contains l) = true := by
+  rw [Ties.tie_breadthFirstRecursiveMatchSkel]
+  decide
+
+set_option maxRecDepth 8000 in
+/-- the applicability predicate of the weight-two TTU handler refuses (does not skip) a parent above weight two -/
+theorem tie_ttu_weight2_refuses :
+    ["4:if w > 2", "5:return false", "4:ttuEdges = append(ttuEdges, edge)"].all
+      (fun l => Gen.Strategies.ttuUseWeight2ResolverSkel.contains l) = true := by
+  rw [Ties.tie_ttuUseWeight2ResolverSkel]
+  decide
+
 /-! ## non-vacuity
 
 The hypotheses of the world-level theorems (`Hyps`, `w1Rel`, `recRel`) mention the string functions of
